@@ -89,6 +89,8 @@ def build_rto_target(c):
             x = cuqi.distribution.Gaussian(mu_arg(), **pkw, geometry=n, name="x")
         Pinv = np.linalg.inv(Sx)
     else:
+        # (an MRF with the same number of nodes on the other grid layout is built and used first, see c20.decoy_other_layout)
+        c20.decoy_other_layout(1, n, "zero", c["gmrf_order"])
         if c.get("prior_reassigned"):
             x = cuqi.distribution.GMRF(mu * 0.5 + 0.1, c["gmrf_prec"] * 3.0, bc_type="zero", order=c["gmrf_order"], name="x")
             _ = (x.sqrtprec, x.logd(np.zeros(n)), x.sqrtprecTimesMean)
